@@ -717,6 +717,17 @@ def _ensure_codepoints_will_have_glyphs(ufo, glyph_inputs):
 
 def _generate_color_font(config: FontConfig, inputs: Iterable[InputGlyph]):
     """Make a UFO and optionally a TTFont from svgs."""
+    inputs = tuple(inputs)
+    inputs_by_name = {}
+    for glyph_input in inputs:
+        inputs_by_name.setdefault(glyph_input.glyph_name, []).append(glyph_input)
+    for name, dupes in inputs_by_name.items():
+        if len(dupes) > 1:
+            raise ValueError(
+                f"Multiple inputs resolve to glyph '{name}': "
+                + ", ".join(str(g.svg_file or g.bitmap_file) for g in dupes)
+            )
+
     ufo = _ufo(config)
     _ensure_codepoints_will_have_glyphs(ufo, inputs)
 
